@@ -62,6 +62,12 @@ func c11Menu(c lockCfg, thorough bool) func(w *engb.World, st *engb.LState, dept
 		engb.LBlock{Dt: 1, Absent: []int{0}, Ops: []engb.LOp{{Kind: "lock", Val: 0, Token: 1, Amt: "150"}}},
 		engb.LBlock{Dt: 1, Ops: []engb.LOp{{Kind: "lock", Val: 0, Token: 0, Amt: "1"}, {Kind: "lock", Val: 9, Token: 0, Amt: "5"}}}, // second names an unknown validator: whole tx must roll back
 	)
+	// a burst that fills a whole delivery batch, to be followed by a later unlock maturing in the same sweep
+	var burst []engb.LOp
+	for i := 0; i < 16; i++ {
+		burst = append(burst, engb.LOp{Kind: "unlock", Val: 0, Token: 0, Amt: "1"})
+	}
+	base = append(base, engb.LBlock{Dt: 1, Ops: burst})
 	if len(c.Powers) > 1 {
 		base = append(base, engb.LBlock{Dt: 1, Absent: []int{0, 1}})
 	}
